@@ -1,12 +1,286 @@
 import IpaVerif.Model.Util
-/-! Line-protocol handlers for property C16 (model side). Import-free. -/
+import IpaVerif.Model.Batcher
+import IpaVerif.Generated.BatcherConsts
+/-! Line-protocol handlers for property C16 (model side). Import-free.
+
+Request:  `c16.batcher <rpb> <total|-|inf> <failing batches|-> <op>…`
+  ops: `g<r>` get_batch(r) and push r · `v<r>` validate_record(r) (future created, not polled) ·
+       `p<i>` poll future i once · `r<b>` let the validation closure of batch b complete ·
+       `d<i>` drop future i · `t<n>`/`ti`/`tu` set_total_records · `s` into_single_batch ·
+       `e` is_empty · `x` dump of the private state
+Response: one token per op, then `| inv=<closure invocation log>`.
+-/
 namespace IpaVerif.Driver.C16
-open IpaVerif.Util
+open IpaVerif.Util IpaVerif.Batcher
+
+def panicTag : Panic → String
+  | .divZero => "panic:divzero"
+  | .alreadyValidated b => s!"panic:validated:{b}"
+  | .twice r => s!"panic:twice:{r}"
+  | .exceeds o t => s!"panic:exceeds:{o}:{t}"
+  | .expectedBatch t => s!"panic:expected:{t}"
+  | .needsSpecific => "panic:needs-specific"
+  | .badTransition => "panic:bad-transition"
+  | .firstBatchNonzero => "panic:first-batch"
+  | .multipleBatches => "panic:multi"
+  | .senderDropped => "panic:sender-dropped"
+
+def errTag : Err → String
+  | .missingTotal => "err:MissingTotal"
+  | .outOfRange => "err:OutOfRange"
+  | .parallelFailed => "err:Parallel"
+  | .validationFailed => "err:DZKP"
+
+def plusList (l : List Nat) : String :=
+  if l.isEmpty then "-" else String.intercalate "+" (l.map toString)
+
+def setIdx (l : List Bool) : List Nat :=
+  (List.range l.length).filter (fun j => l.getD j false)
+
+def slotStr : Option BatchState → String
+  | none => "N"
+  | some b => s!"{b.ctor}.{b.pendingCount}.{b.pendingRecords.length}.{plusList (setIdx b.pendingRecords)}"
+
+def stateStr (s : State) : String :=
+  s!"x:{s.firstBatch}:" ++ (if s.batches.isEmpty then "-" else String.intercalate "/" (s.batches.map slotStr))
+
+def parseTotal (s : String) : Option Total :=
+  if s = "-" then some .unspecified
+  else if s = "inf" then some .indeterminate
+  else s.toNat?.map .specified
+
+def invStr (l : List (Nat × Nat × List Nat)) : String :=
+  if l.isEmpty then "-" else String.intercalate ";" (l.map fun (b, c, p) => s!"{b}:{c}:{plusList p}")
+
+/-- split `g12` into ('g', "12"). -/
+def splitOp (t : String) : Option (Char × String) :=
+  match t.toList with
+  | c :: rest => some (c, String.ofList rest)
+  | [] => none
+
+def stepOp (w : World) (t : String) : Option (World × String) := do
+  let (c, arg) ← splitOp t
+  match c with
+  | 'g' =>
+    let r ← arg.toNat?
+    match w.batcher with
+    | none => pure (w, "gone")
+    | some s =>
+      match getBatchPush s r r with
+      | (s', .ok (ctor, pl)) => pure ({ w with batcher := some s' }, s!"g:{ctor}:{plusList pl}")
+      | (s', .error p) => pure ({ w with batcher := some s' }, panicTag p)
+  | 'v' =>
+    let r ← arg.toNat?
+    match w.batcher with
+    | none => pure (w, "gone")
+    | some _ =>
+      match w.validate r with
+      | (w', .ok i) => pure (w', s!"f{i}")
+      | (w', .error p) => pure (w', panicTag p)
+  | 'p' =>
+    let i ← arg.toNat?
+    let (w', o) := w.poll i
+    pure (w', match o with
+      | .pending => "pend" | .ok => "ok" | .err e => errTag e | .panic p => panicTag p | .gone => "gone")
+  | 'r' => do let b ← arg.toNat?; pure (w.release b, "r")
+  | 'd' => do let i ← arg.toNat?; pure (w.dropFut i, "d")
+  | 't' =>
+    let t ← (if arg = "i" then some Total.indeterminate else if arg = "u" then some Total.unspecified
+             else arg.toNat?.map Total.specified)
+    match w.batcher with
+    | none => pure (w, "gone")
+    | some s =>
+      match setTotal s t with
+      | .ok s' => pure ({ w with batcher := some s' }, "t")
+      | .error p => pure (w, panicTag p)
+  | 's' =>
+    if arg ≠ "" then none else
+    match w.batcher with
+    | none => pure (w, "gone")
+    | some _ =>
+      match w.intoSingle with
+      | (w', .ok (ctor, pl)) => pure (w', s!"s:{ctor}:{plusList pl}")
+      | (w', .error p) => pure (w', panicTag p)
+  | 'e' =>
+    match w.batcher with
+    | none => pure (w, "gone")
+    | some s => pure (w, if s.batches.isEmpty then "e1" else "e0")
+  | 'x' =>
+    match w.batcher with
+    | none => pure (w, "gone")
+    | some s => pure (w, stateStr s)
+  | _ => none
+
+def runOps : World → List String → List String → Option (World × List String)
+  | w, [], acc => some (w, acc.reverse)
+  | w, t :: ts, acc => do
+    let (w', o) ← stepOp w t
+    runOps w' ts (o :: acc)
+
+def batcher (args : List String) : Option String :=
+  match args with
+  | rpb :: total :: fail :: ops => do
+    let rpb ← rpb.toNat?
+    let total ← parseTotal total
+    let fail ← parseNatList fail
+    let w := World.new rpb total IpaVerif.Generated.targetProofSizeTest fail
+    let (w', outs) ← runOps w ops []
+    pure (String.intercalate " " (outs ++ ["|", "inv=" ++ invStr w'.invoked]))
+  | _ => none
 
 /-- `some response` if the request belongs to this property, else `none`. -/
-def handle (_toks : List String) : Option String := none
+def handle (toks : List String) : Option String :=
+  match toks with
+  | "c16.batcher" :: args => some ((batcher args).getD "bad-request")
+  | _ => none
 
-/-- Property oracle on (request, implementation response): `some "holds"`, `some "fails <why>"`, or `none`. -/
-def oracle (_toks : List String) (_impl : String) : Option String := none
+/-! ## Spec-side oracle
+
+Written against the statement of C16, not against the model of the code: it replays the request
+keeping only *which records asked for validation* and checks, on the implementation's response,
+that (1) a future of a legitimate record completes only once every record of its batch has asked
+for validation, the batch check ran (appears in the invocation log) after having been released,
+and with the verdict of that check; (2) no batch is checked twice, with the right content;
+(3) a misuse call (record seen twice, beyond the total, batch already complete, no total) is
+answered by an error or a panic — never `pend`/`ok`. -/
+
+structure OSt where
+  rpb : Nat
+  total : Option Nat
+  seen : List Nat := []
+  /-- future index ↦ (record, legit) -/
+  futs : List (Nat × Bool) := []
+  polled : List Nat := []        -- futures polled at least once
+  released : List Nat := []
+  broken : List Nat := []        -- batches whose checking future was dropped / batcher consumed
+  pushes : List Nat := []        -- successful get_batch pushes
+  consumed : Bool := false
+  bad : Option String := none
+
+def batchRecords (rpb total b : Nat) : List Nat :=
+  (List.range (min rpb (total - b * rpb))).map (b * rpb + ·)
+
+def wholeBatch (o : OSt) (b : Nat) : Bool :=
+  match o.total with
+  | none => false
+  | some n => b * o.rpb < n && (batchRecords o.rpb n b).all (o.seen.contains ·)
+
+def flag (o : OSt) (why : String) : OSt := if o.bad.isSome then o else { o with bad := some why }
+
+/-- the future that runs the check of batch `b` is the one of the last record of `b` to arrive. -/
+def checkerOf (o : OSt) (b : Nat) : Option Nat :=
+  let idx := (List.range o.futs.length).filter (fun i =>
+    let (r, legit) := o.futs.getD i (0, false); legit && r / o.rpb == b)
+  idx.getLast?
+
+def oStep (fail : List Nat) (o : OSt) (t resp : String) : OSt :=
+  match splitOp t with
+  | none => o
+  | some (c, arg) =>
+    let n := arg.toNat?.getD 0
+    match c with
+    | 'g' => if resp.startsWith "g:" then { o with pushes := o.pushes ++ [n] } else o
+    | 'v' =>
+      if o.consumed then o else
+      let loud := match o.total with
+        | none => true
+        | some tot => n ≥ tot || o.seen.contains n || wholeBatch o (n / o.rpb)
+      if resp.startsWith "f" then
+        if loud then { o with futs := o.futs ++ [(n, false)] }
+        else { o with futs := o.futs ++ [(n, true)], seen := o.seen ++ [n] }
+      else if loud then o
+      else flag o s!"validate_record({n}) was legitimate but answered {resp}"
+    | 'p' =>
+      if resp == "gone" then o else
+      match o.futs[n]? with
+      | none => o
+      | some (r, legit) =>
+        let first := !o.polled.contains n
+        let o := { o with polled := o.polled ++ [n] }
+        let b := r / o.rpb
+        if !legit then
+          if first && (resp == "pend" || resp == "ok") then
+            flag o s!"misuse validate_record({r}) silently accepted: first poll answered {resp}"
+          else o
+        else if resp == "pend" then o
+        else if resp == "panic:sender-dropped" then
+          if o.broken.contains b then o else flag o s!"record {r}: waiter panicked although the check of batch {b} was not abandoned"
+        else if resp.startsWith "panic" then flag o s!"record {r}: legitimate wait panicked: {resp}"
+        else
+          let isChecker := checkerOf o b == some n
+          let good := !fail.contains b
+          let want := if good then "ok" else if isChecker then "err:DZKP" else "err:Parallel"
+          if !wholeBatch o b then flag o s!"record {r} released before every record of batch {b} asked for validation"
+          else if !o.released.contains b then flag o s!"record {r} released before the check of batch {b} finished"
+          else if !isChecker && !((checkerOf o b).any (o.polled.contains ·)) then
+            flag o s!"record {r} released before the check of batch {b} ran"
+          else if resp != want then flag o s!"record {r} got {resp}, verdict of batch {b} is {want}"
+          else o
+    | 'r' => { o with released := o.released ++ [n] }
+    | 'd' =>
+      match o.futs[n]? with
+      | some (r, true) =>
+        if checkerOf o (r / o.rpb) == some n && wholeBatch o (r / o.rpb) then { o with broken := o.broken ++ [r / o.rpb] } else o
+      | _ => o
+    | 't' =>
+      if resp != "t" then o else
+      if arg == "i" then { o with total := none } else if arg == "u" then o else { o with total := some n }
+    | 's' => { o with consumed := true, broken := o.broken ++ List.range (o.seen.foldl max 0 / (max o.rpb 1) + 1) }
+    | _ => o
+
+def parseInv (s : String) : Option (List (Nat × Nat × List Nat)) :=
+  if s = "-" then some [] else
+  (s.splitOn ";").mapM fun e =>
+    match e.splitOn ":" with
+    | [b, c, p] => do
+      let p ← if p = "-" then some [] else (p.splitOn "+").mapM String.toNat?
+      pure (← b.toNat?, ← c.toNat?, p)
+    | _ => none
+
+def oFinal (o : OSt) (inv : List (Nat × Nat × List Nat)) : OSt := Id.run do
+  let mut o := o
+  let bs := inv.map (·.1)
+  for (b, c, p) in inv do
+    if (bs.filter (· == b)).length ≠ 1 then o := flag o s!"batch {b} was checked more than once"
+    if c ≠ b then o := flag o s!"batch {b} was built by constructor call {c}"
+    if !wholeBatch o b then o := flag o s!"batch {b} was checked before all of its records asked for validation"
+    if p ≠ o.pushes.filter (· / o.rpb == b) then o := flag o s!"batch {b} was checked with content {p}"
+  -- every complete batch whose checking future was polled has been checked
+  match o.total with
+  | none => pure ()
+  | some n =>
+    for b in List.range ((n + o.rpb - 1) / o.rpb) do
+      if wholeBatch o b then
+        match checkerOf o b with
+        | some i => if o.polled.contains i && !bs.contains b then o := flag o s!"batch {b} is complete and its future was polled, but it was never checked"
+        | none => pure ()
+  return o
+
+def batcherOracle (args : List String) (impl : String) : Option String :=
+  match args with
+  | rpb :: total :: fail :: ops => do
+    let rpb ← rpb.toNat?
+    if rpb = 0 then none else
+    let total ← parseTotal total
+    let fail ← parseNatList fail
+    let toks := impl.splitOn " "
+    let resps := toks.takeWhile (· ≠ "|")
+    if resps.length ≠ ops.length then none else
+    let invTok ← toks.getLast?
+    if !invTok.startsWith "inv=" then none else
+    let inv ← parseInv (invTok.drop 4).toString
+    let o0 : OSt := { rpb := rpb, total := total.count }
+    let o := (ops.zip resps).foldl (fun o (t, r) => oStep fail o t r) o0
+    let o := oFinal o inv
+    match o.bad with
+    | some why => pure ("fails " ++ why)
+    | none => pure "holds"
+  | _ => none
+
+/-- Property oracle on (request, implementation response). -/
+def oracle (toks : List String) (impl : String) : Option String :=
+  match toks with
+  | "c16.batcher" :: args => some ((batcherOracle args impl).getD "unknown")
+  | _ => none
 
 end IpaVerif.Driver.C16
